@@ -18,7 +18,7 @@ import sys
 
 VERIF = os.path.dirname(os.path.dirname(os.path.abspath(__file__)))
 REF = os.path.join(VERIF, "refactors")
-WORK = "/tmp/refacwork"
+WORK = f"/tmp/refacwork-{os.getpid()}"
 PY = "/venv/bin/python"
 
 
